@@ -98,6 +98,15 @@ Definition default_path (upath : str) : str :=
     end
   else [SLASH].
 
+(* ---------------------------------------------------------------- time
+   time.time() is a float and Max-Age is added to it as it is, so two responses less than a second apart give
+   deadlines less than a second apart.  The model measures every instant (now, deadlines, Expires values, clock
+   advances) in ticks of 1/TICKS second; Max-Age stays an integer number of seconds.  The harness clock moves in
+   whole ticks, which are exact in binary floating point, so the implementation's float arithmetic and
+   comparisons agree with these integers exactly. *)
+Definition TICKS : Z := 8.
+Definition max_age_ticks (now d : Z) : Z := max_age_deadline_gen now (TICKS * d)%Z (TICKS * MAX_TIME)%Z.
+
 (* ---------------------------------------------------------------- data *)
 
 Record url := { u_secure : bool; u_host : str; u_path : str }.
@@ -226,7 +235,7 @@ Definition update1 (u : url) (now : Z) (j : jar) (m : morsel) : jar :=
                        | _ => j1
                        end in
     let j2 := match m_maxage m with
-              | MA_val dl => expire_cookie j1 (max_age_deadline now dl) k
+              | MA_val dl => expire_cookie j1 (max_age_ticks now dl) k
               | MA_invalid => if invalid_max_age_uses_expires then via_expires else j1
               | MA_none => via_expires
               end in
@@ -379,7 +388,7 @@ Definition rfc_domain_attr (m : morsel) : str :=
 (* 5.2.2 / 5.3 step 3: Max-Age wins over Expires; an invalid Max-Age is ignored *)
 Definition rfc_expiry (m : morsel) (now : Z) : option Z :=
   match m_maxage m with
-  | MA_val d => Some (now + d)%Z
+  | MA_val d => Some (now + TICKS * d)%Z
   | _ => match m_expires m with EX_val t => Some t | _ => None end
   end.
 
